@@ -597,6 +597,18 @@ func runC15(c *Ctx) {
 			})
 		}
 	}
+	// (a') names and strings that need escaping: object attribute names, map keys and string
+	// values holding control characters, DEL, quotes, backslashes, line separators and
+	// non-printable runes beyond the BMP, against their own type and under the placeholder
+	for _, hv := range nameHazardValues() {
+		hv := hv
+		c.Unit(func(u *U) {
+			for _, ct := range dynVariants(hv.t, 8) {
+				u.DistinctN(1)
+				c15RoundTrip(u, hv.v, ct)
+			}
+		})
+	}
 	// (c) rejections
 	c.Unit(func(u *U) {
 		bad := []cty.Value{
@@ -773,4 +785,30 @@ func checkRetained(u *U, family string, b []byte, desc string) {
 		u.Violation(family+".output-overwritten", family, fmt.Sprintf("the bytes returned for %s were %q; after the next call (%s) the same slice holds %q", r.desc, r.copy, desc, string(r.b)))
 	}
 	retainedOutputs[family] = &retainedOutput{b: b, copy: string(b), desc: desc}
+}
+
+type hazardValue struct {
+	v cty.Value
+	t *TS
+}
+
+var hazardNames = []string{"\a", "\v", "\x01", "\x1f", "\x7f", "\x00", "\U000E0001", "\"q\"", "back\\slash", "line\nbreak\ttab", "\u2028\u2029", "<&>", "\b\f\r", "\u0085", "\ufeffbom", "/", "\U0001F44D"}
+
+// nameHazardValues: every hazardous string as an object attribute name, a map key, a string
+// value and a set member, alone and nested.
+func nameHazardValues() []hazardValue {
+	var out []hazardValue
+	for _, h := range hazardNames {
+		sv := cty.StringVal("v" + h)
+		out = append(out,
+			hazardValue{cty.ObjectVal(map[string]cty.Value{h: sv}), tObj(at(h, tsStr))},
+			hazardValue{cty.ObjectVal(map[string]cty.Value{h: cty.NumberIntVal(1), "a": cty.True}), tObj(at(h, tsNum), at("a", tsBool))},
+			hazardValue{cty.MapVal(map[string]cty.Value{h: sv, "k": cty.StringVal("")}), tMap(tsStr)},
+			hazardValue{cty.ListVal([]cty.Value{cty.ObjectVal(map[string]cty.Value{h: sv})}), tList(tObj(at(h, tsStr)))},
+			hazardValue{cty.TupleVal([]cty.Value{cty.MapVal(map[string]cty.Value{h: cty.NumberIntVal(2)}), sv}), tTuple(tMap(tsNum), tsStr)},
+			hazardValue{cty.SetVal([]cty.Value{sv, cty.StringVal(h)}), tSet(tsStr)},
+			hazardValue{cty.ObjectVal(map[string]cty.Value{"o": cty.ObjectVal(map[string]cty.Value{h: cty.NullVal(cty.String)})}), tObj(at("o", tObj(at(h, tsStr))))},
+		)
+	}
+	return out
 }
